@@ -77,6 +77,11 @@ CAND = "        elif parent_prob <= max_prob:"
 add('C08', 'candidate-strict', PGF, CAND, "        elif parent_prob < max_prob:", 'fire', 'C08.R2')
 add('C08', 'candidate-written-as-not-gt', PGF, CAND, "        elif not (parent_prob > max_prob):", 'silent')
 add('C08', 'around-inverted', PGF, "            if not self.is_parent_around(pt_item, max_prob):", "            if self.is_parent_around(pt_item, max_prob):", 'fire', 'C08.R2')
+AROUND_SKIP = "        for pos, item in enumerate(child):\n\n            # Skip if there is no parent at this position\n            if item[1] == 0:\n                continue\n\n            # Create the new parent\n            new_parent = copy.copy(child)"
+add('C08', 'around-skip-returns', PGF, AROUND_SKIP, AROUND_SKIP.replace("                continue", "                return False"), 'fire', 'C08.R2')
+add('C08', 'around-guard-first (nested return under the prob test)', PGF,
+    "            if item[1] == 0:\n                continue\n\n            # Create the new parent\n            new_parent = copy.copy(child)\n            new_parent[pos] = (new_parent[pos][0], new_parent[pos][1]-1)\n\n            # Calculate new parent's probability\n            new_parent_prob = self._find_prob(new_parent, pt_item['base_prob'])\n\n            # Check if the new parent should take care of the child\n            if new_parent_prob <= max_prob:\n                return True",
+    "            if item[1] != 0:\n                new_parent = copy.copy(child)\n                new_parent[pos] = (new_parent[pos][0], new_parent[pos][1]-1)\n                new_parent_prob = self._find_prob(new_parent, pt_item['base_prob'])\n                if new_parent_prob <= max_prob:\n                    return True", 'silent')
 add('C08', 'left-index-zero', PGF, "save_function, left_index = pos)", "save_function, left_index = 0)", 'fire', 'C08.R3')
 add('C08', 'left-index-dropped', PGF, "        for pos in range(left_index, parent_len):", "        for pos in range(0, parent_len):", 'fire', 'C08.R3')
 add('C08', 'max-not-updated', PQF, "        self.max_probability = queue_item.pt_item['prob']\n", "", 'fire', 'C08.R4')
